@@ -12,10 +12,12 @@ recorded sets.
 from __future__ import annotations
 
 import json
+import os
+import shutil
 from pathlib import Path
 
 from harness.adapters import cluster as ad
-from harness.core import Ctx, parallel_map
+from harness.core import NCPU, Ctx, parallel_map
 from harness.tlc import MachineryError
 
 CLAUSES = ("UnderTestSubsetOfEligible", "EligibleSubsetOfUnderTest", "NothingForeignUnderTest")
@@ -155,7 +157,11 @@ def run(ctx: Ctx) -> None:
     _ROOT.mkdir(parents=True, exist_ok=True)
     import time
     t0 = time.time()
-    traces = parallel_map(_run_one, list(enumerate(cases)), chunksize=8)
+    # results do not depend on the schedule; on an overloaded machine a fork pool was measured to be
+    # several times slower than a serial loop, so the pool is only used when cores are free
+    procs = min(8, NCPU) if os.getloadavg()[0] < 0.75 * NCPU else 1
+    traces = parallel_map(_run_one, list(enumerate(cases)), procs=procs, chunksize=8)
+    ctx.notes["real_analysis_procs"] = procs
     ctx.notes["real_analysis_wall_s"] = round(time.time() - t0, 1)
     ctx.evaluations = 3 * len(traces)
     for t in traces:
@@ -189,6 +195,7 @@ def replay(ctx: Ctx, rec: dict) -> int:
     verdicts = ctx.validate("ClusterTrace", focus)
     bad = sorted({(c, focus[k]["focus"], focus[k]["ev"][0]["vis"]) for k, v in verdicts.items()
                   for c, _ in v if c in CLAUSES})
+    shutil.rmtree(ctx.work, ignore_errors=True)
     if bad:
         for c, i, vis in bad:
             print(f"VIOLATION property=C27 replay=(this) clause={c} member={tr['M'][i - 1]['name']} "
